@@ -47,3 +47,17 @@ package keeper
 //@ func NewKeeper(cdc, addressCdc, logger, eventService, storeService, authority, bankKeeper) (result)
 //@   ensures[C10] result != nil && result.authority == authority
 //@   ensures[C08,C09] result != nil && wired(result)
+
+// Message servers (C10): the three services are registered with the message servers of this keeper's own
+// components, each with this keeper as its Authorizer - so the authority every handler checks (schema C10 over
+// all handlers) is the keeper's, which is the configured one (NewKeeper, ProvideModule).
+//@ macro fwdSrv(x) = cast(x, "keeper/component/forwarder.msgServer")
+//@ macro excSrv(x) = cast(x, "keeper/component/executor.msgServer")
+//@ macro adpSrv(x) = cast(x, "keeper/component/adapter.msgServer")
+//@ func RegisterMsgServers(cfg, k)
+//@   requires[inv] k != nil
+//@   modifies reg_n, reg_impl
+//@   ensures[C10] reg_n == old(reg_n) + 3
+//@   ensures[C10] istype(reg_impl[old(reg_n)], "keeper/component/forwarder.msgServer") && fwdSrv(reg_impl[old(reg_n)]).Authorizer == box(k, "*keeper.Keeper") && fwdSrv(reg_impl[old(reg_n)]).Forwarder == k.forwarder
+//@   ensures[C10] istype(reg_impl[old(reg_n) + 1], "keeper/component/executor.msgServer") && excSrv(reg_impl[old(reg_n) + 1]).Authorizer == box(k, "*keeper.Keeper") && excSrv(reg_impl[old(reg_n) + 1]).Executor == k.executor
+//@   ensures[C10] istype(reg_impl[old(reg_n) + 2], "keeper/component/adapter.msgServer") && adpSrv(reg_impl[old(reg_n) + 2]).Authorizer == box(k, "*keeper.Keeper") && adpSrv(reg_impl[old(reg_n) + 2]).Adapter == k.adapter
